@@ -132,6 +132,27 @@ def search(n):
     exp = {"self": obj, "x": 1, "y": 2, "*": [], "z": 3, "**": {"q": 9}}
     if got != exp:
         return dict(violation=True, cases=cases, what="bound method: %r expected %r" % (got, exp), witness="K().m(1, q=9)")
+    # the binding follows the function AS IT IS NOW: defaults re-assigned and code swapped between two calls (Python looks at the live
+    # __defaults__ / __kwdefaults__ / __code__ on every call; a signature remembered from an earlier call is stale)
+    def g(a, b=1, *, c=2):
+        return dict(locals())
+
+    def g_more(a, b=1, extra=5, *, c=2):
+        return dict(locals())
+    for step, mutate in enumerate((lambda: None, lambda: setattr(g, "__defaults__", (10,)), lambda: setattr(g, "__kwdefaults__", {"c": 20}),
+                                   lambda: (setattr(g, "__code__", g_more.__code__), setattr(g, "__defaults__", (10, 50))))):
+        mutate()
+        for args, kwargs in (((1,), {}), ((1, 2), {}), ((1,), {"c": 3}), ((1, 2, 3), {}) if step == 3 else ((1,), {"b": 4})):
+            cases += 1
+            exp = g(*args, **kwargs)
+            try:
+                got = filter_args(g, [], args, dict(kwargs))
+            except Exception as e:  # noqa
+                got = repr(e)
+            if got != exp:
+                return dict(violation=True, cases=cases, what="after %s: filter_args -> %r, Python binds %r" % (
+                    ["nothing", "g.__defaults__ = (10,)", "g.__kwdefaults__ = {'c': 20}", "g.__code__ replaced by code with one more parameter"][step], got, exp),
+                    witness=dict(signature="def g(a, b=1, *, c=2)", args=list(args), kwargs=kwargs))
     # K15 (recorded finding): inspect.signature follows __wrapped__, so for a functools.wraps wrapper filter_args binds the arguments
     # against the WRAPPED function's parameters instead of the wrapper's own
     import functools
